@@ -1,6 +1,8 @@
 //@inject src/frontend/source_range.rs
 // E-K harnesses for src/frontend/source_range.rs (C12): the SourceRange algebra on the compiled code, all u32
-// line/column values.  Loop-free (normalized/new recurse at most once) => complete.
+// line/column values.  Loop-free (normalized/new recurse at most once) => complete.  In harnesses named
+// `*__terminates` a failed unwinding assertion (recursion deeper than the bound 3) is itself the violation:
+// SourceRange::new <-> normalized must bottom out after one swap (C01: parsing terminates).
 use super::*;
 
 fn any_loc() -> SourceLocation {
@@ -31,13 +33,13 @@ fn same(a: SourceLocation, b: SourceLocation) -> bool {
     a.line == b.line && a.column == b.column
 }
 
-pub mod c12__source_range {
+pub mod c01_c12__source_range {
     use super::*;
 
     /// constructors normalise: start <= end, and they are the two given locations
     #[kani::proof]
     #[kani::unwind(3)]
-    fn new_is_normalised() {
+    fn new_is_normalised__terminates() {
         let (a, b) = (any_loc(), any_loc());
         let r = SourceRange::from((a, b));
         assert!(le(r.start(), r.end()));
